@@ -288,6 +288,17 @@ let () =
                        (Printf.sprintf "eval disagrees with the node-by-node interpretation: eval %s, interpretation %s"
                           (show_vt impl) (show_vt ta))
                  | _ -> stat "unresolved" 1)
+              | [ "SATVALID"; a ] ->
+                (* satisfiable() / valid() through the Rust API against the value table (package C12s) *)
+                (match get a with
+                 | Some ta ->
+                   check "C02"; stat "c02_satvalid" 1;
+                   let sat = Array.exists (fun x -> x <> 0) ta and valid = Array.for_all (fun x -> x = 1) ta in
+                   let want = Printf.sprintf "sat=%d valid=%d" (if sat then 1 else 0) (if valid then 1 else 0) in
+                   if p.pres <> want then
+                     fail p.pstep "C02" "prop"
+                       (Printf.sprintf "satisfiable/valid of h%d: %s, the value table %s says %s" (slot_of a) p.pres (show_vt ta) want)
+                 | None -> stat "unresolved" 1)
               | [ "NC"; a ] ->
                 (match List.assoc_opt (slot_of a) ps.handles, split_ws p.pres with
                  | Some e, [ "n"; k ] ->
@@ -835,7 +846,7 @@ let () =
                   fail i "C08" "prop" "set_var_order (concurrent bubble sort) changed the function of a live handle (sampled evaluations differ)"
                 else if List.mem "rebuilt=0" rt then
                   fail i "C08" "prop" "after set_var_order (concurrent bubble sort) the construction of the same function arrives at a different handle than the live one (canonicity lost: nodes are not where their level says)"
-                else if (match kvi "inner_after_gc", kvi "nodes_after" with
+                else if kname <> "zbdd" && (match kvi "inner_after_gc", kvi "nodes_after" with
                     | Some a, Some b -> a <> b - (if kname = "bcdd" then 1 else 2) | _ -> false) then
                   fail i "C08" "prop" (Printf.sprintf "after set_var_order and a collection the manager stores %d inner nodes, the only live handle has %d nodes (incl. terminals)"
                                          (Option.get (kvi "inner_after_gc")) (Option.get (kvi "nodes_after")))
